@@ -310,7 +310,11 @@ impl<OS: OrdStrat> Ord for OrdRoute<'_, OS> {
                     self.pa_map.get::<Origin>(),
                     other.pa_map.get::<Origin>(),
                 ) {
-                    (Some(a), Some(b)) => a.cmp(&b),
+                    // Compare the ORIGIN values as the numbers they are on
+                    // the wire: the derived order of OriginType ranks a
+                    // hand-made OriginType::Unimplemented(0) above
+                    // Incomplete, though the route goes out as ORIGIN 0.
+                    (Some(a), Some(b)) => u8::from(a.0).cmp(&u8::from(b.0)),
                     (_, _) => cmp::Ordering::Equal,
                 }
             })
